@@ -508,8 +508,8 @@ fn enum_c08(tier: &str, r: &mut Rng) -> Vec<Session> {
 
 fn enum_c12(tier: &str, r: &mut Rng) -> Vec<Session> {
     let mut out = vec![];
-    let mut numbers: Vec<u32> = (0..=40).collect();
-    numbers.extend([96u32, 128, 160, 192, 224, 640, 800, 9999, 3 << 5, 20 << 5]);
+    let mut numbers: Vec<u32> = (0..=900).collect();
+    numbers.extend([9999u32, 1024, 2048, 4096, 6144, 8192, 25 << 6]);
     if tier == "thorough" {
         numbers = (0..=9999).collect();
     } else {
@@ -552,9 +552,20 @@ fn enum_c12(tier: &str, r: &mut Rng) -> Vec<Session> {
             _ => {}
         }
         prefix.push(api(Call::CursorPosition(Some(r.range(1, lines)), Some(r.range(1, cols)))));
-        let keep = if tier == "thorough" { 1 } else { 2 };
+        let keep = if tier == "thorough" { 1 } else { 4 };
         out.push(sess(format!("c12e{}", i), cols, lines, fan_out(r, prefix, &cands, keep, true)));
     }
+    // through the parser: SM/RM right after a skipped or aborted (private) sequence
+    let mut ops = vec![Op::Snap];
+    for pre in ["\x1b[?25$p", "\x1b[?25\x18", "\x1b[?7\x1a", "\x1b[?1;2$y", "\x1b[4$p", "\x1b[?", "\x1b[?5 >"] {
+        for body in ["4h", "4l", "20h", "20l", "25h", "25l", "5h", "6h", "3h", "7l", "?25l", "?4h"] {
+            ops.push(Op::Feed(pre.to_string()));
+            ops.push(Op::Feed(format!("\x1b[{}", body)));
+            ops.push(api(Call::Draw("m".into())));
+            ops.push(Op::Back);
+        }
+    }
+    out.push(sess("c12p".into(), 6, 3, ops));
     out
 }
 
@@ -695,6 +706,37 @@ fn enum_c03(tier: &str, r: &mut Rng) -> Vec<Session> {
             out.push(Session { columns: 4, lines: 1, bytes: false, events_only: true, id: format!("c03x{}u{}", i, utf8 as u32), ops });
         }
     }
+    // pairs / triples of sequences: state must not leak from one sequence into the next
+    let firsts: Vec<&str> = vec![
+        "\x1b[?25$p", "\x1b[1;2;3;4$x", "\x1b[?25\x18", "\x1b[3\x1a", "\x1b[?7 >", "\x1b]0;t\x07", "\x1b]2;a\x1b\\",
+        "\u{9d}1;b\u{9c}", "\x1b%G", "\x1b(B", "\x1b)0", "\x1b#8", "\x1b#3", "\x1b[?25h", "\x1b[5;6H", "\x1b[>c", "\x1b[?1049h",
+        "\x1b]R", "\x1b]p", "\x1b]\x07", "\x1b[12;", "\x1b[?", "\x1b[00005", "\u{9b}7\n", "\x1bZ", "\x1b[1;2\x07;3m",
+    ];
+    let seconds: Vec<&str> = vec![
+        "\x1b[4h", "\x1b[?4h", "\x1b[20l", "\x1b[3C", "\x1b[5;6H", "\x1b[m", "\x1b[38;5;1m", "x", "\x1bc", "\x1b]2;a\x07", "\x1b[5B",
+        "\u{9b}2J", "\x1b[;H", "\x1b[0000000000000000000000007C", "\x0e", "\x1b7", "\x1b[1;2r",
+    ];
+    let mut k = 0;
+    for utf8 in [true, false] {
+        for a in &firsts {
+            for b in &seconds {
+                for third in ["", "\x1b[2;3H"] {
+                    let st = format!("{}{}{}", a, b, third);
+                    let mut ops = vec![Op::Utf8(utf8)];
+                    if k % 3 == 0 {
+                        for ch in gen::split_chars(r, &st) {
+                            ops.push(Op::Feed(ch));
+                        }
+                    } else {
+                        ops.push(Op::Feed(st));
+                    }
+                    ops.push(Op::Feed("z".into()));
+                    k += 1;
+                    out.push(Session { columns: 4, lines: 1, bytes: false, events_only: true, id: format!("c03p{}", k), ops });
+                }
+            }
+        }
+    }
     // random long strings and very long digit runs
     for i in 0..counts(tier, 1500, 40000) {
         let mut st = String::new();
@@ -799,6 +841,19 @@ fn enum_c11(tier: &str, r: &mut Rng) -> Vec<Session> {
         ops.push(Op::FeedB(b"Z".to_vec()));
         out.push(Session { columns: 4, lines: 1, bytes: true, events_only: true, id: format!("c11x{}", i), ops });
     }
+    // dense runs of ill-formed input in a single chunk
+    let units: [&[u8]; 8] = [b"\xff", b"\x80", b"\xed\xa0\x80", b"\xc0", b"\xf5", b"\xe2\x82", b"\xf0\x9f", b"\xc3("];
+    for (ui, u) in units.iter().enumerate() {
+        for n in [1usize, 2, 3, 5, 8, 13, 19, 20, 21, 24, 33, 64, 200] {
+            let mut b: Vec<u8> = vec![];
+            for _ in 0..n {
+                b.extend_from_slice(u);
+            }
+            b.extend_from_slice(b"end");
+            let ops = vec![Op::FeedB(b), Op::FeedB(b"Z".to_vec())];
+            out.push(Session { columns: 4, lines: 1, bytes: true, events_only: true, id: format!("c11d{}n{}", ui, n), ops });
+        }
+    }
     // mode switches between chunks
     for i in 0..counts(tier, 300, 6000) {
         let mut ops = vec![];
@@ -874,8 +929,11 @@ pub fn generate(prop: &str, tier: &str, seed: u64) -> Vec<Session> {
             out.extend(c5.into_iter().step_by(step));
             out.extend(enum_c18(tier, &mut r).into_iter().step_by(4));
             out.extend(enum_c08(tier, &mut r).into_iter().take(1));
+            if prop == "C17" {
+                out.extend(generate("C17b", tier, seed).into_iter().filter(|s| s.id.starts_with("C17bd")));
+            }
         }
-        "C04" | "C10" => {
+        "C04" | "C10" | "C17b" => {
             // draw-heavy sessions on tiny screens with every mode combination
             for i in 0..counts(tier, 300, 6000) {
                 let cols = r.range(1, 5);
@@ -889,10 +947,11 @@ pub fn generate(prop: &str, tier: &str, seed: u64) -> Vec<Session> {
                 if r.chance(1, 4) { ops.push(api(Call::ShiftOut)); }
                 if r.chance(1, 3) { ops.push(api(Call::Sgr(gen::sgr_list(&mut r)))); }
                 for _ in 0..r.range(1, 8) {
-                    match r.below(8) {
+                    match r.below(9) {
                         0 => ops.push(api(Call::CursorPosition(Some(r.range(1, lines)), Some(r.range(1, cols))))),
                         1 => ops.push(api(Call::Display)),
                         2 => ops.push(api(Call::CarriageReturn)),
+                        3 => ops.push(api(Call::ClearDirty)),
                         _ => ops.push(api(Call::Draw(gen::text(&mut r, 5)))),
                     }
                 }
